@@ -56,6 +56,25 @@ pub fn gen_int_atom(r: &mut Rng) -> Vec<u8> {
     }
 }
 
+/// machine-word boundary values: 0, +-1, +-2, +-(2^k - 1), +-2^k, +-(2^k + 1)
+pub fn boundary_ints() -> Vec<Vec<u8>> {
+    let mut v: Vec<i128> = vec![0, 1, -1, 2, -2, 3, -3, 10, -10];
+    for k in [7u32, 8, 15, 16, 23, 24, 25, 26, 31, 32, 33, 62, 63, 64, 65, 126] {
+        let p = 1i128 << k;
+        for x in [p - 1, p, p + 1] {
+            v.push(x);
+            v.push(-x);
+        }
+    }
+    let mut out: Vec<Vec<u8>> = v.into_iter().map(encode_int).collect();
+    // a few non-canonical spellings
+    out.push(vec![0x00]);
+    out.push(vec![0xff, 0xff]);
+    out.push(vec![0x00, 0x7f]);
+    out.push(vec![0xff, 0x80, 0, 0, 0, 0, 0, 0, 0]);
+    out
+}
+
 pub fn gen_bytes_atom(r: &mut Rng, max_len: usize) -> Vec<u8> {
     let mut len = *r.pick(LEN_CLASSES);
     if len > max_len {
